@@ -81,7 +81,12 @@ pub fn history_from_bytes(data: &[u8]) -> Option<History> {
     while let Some(c) = r.u8() {
         let k = (c >> 4) as u32 % keys.len() as u32;
         let op = match c & 0x0f {
-            0..=4 => {
+            4 => {
+                // value derived from the stored one (append / cut / identical / one byte / prepend / doubled)
+                let l = r.u8().unwrap_or(0);
+                Op::PutRel { k, mode: l % 6, n: (l as u16) * 257 }
+            }
+            0..=3 => {
                 let l = r.u8().unwrap_or(0);
                 let len = if l & 0x80 != 0 {
                     VAL_LENS[(l & 0x1f) as usize]
